@@ -217,6 +217,21 @@ CLAIMED['C07'] = dict(
          'exercised (byte-equal results for nprocesses 1..8), not modelled.',
     note=NOTE + ' libm cosine, std, the zero-crossing / instantaneous-frequency estimators and plain get_next_imf are oracles; ratio amplitude modes have no exact twin (std is irrational) and are compared at 1e-9.')
 
+# ties of round 5 (Prop_Tie_Parab / Wave / Cyciter), wired into these properties' proof steps
+_T5 = {
+    'Parab': ('props/Prop_Tie_Parab.v: compute_parabolic_extrema (= Extrema.parabolic_vertex on every non-degenerate triplet; strict extrema are '
+              'never degenerate; the nan/inf answers on collinear triplets stated), _nsamples_warn, is_imf (new list-level model, option plumbing), '
+              'SiftConfig __iter__ / __len__ / __repr__'),
+    'Wave': ('props/Prop_Tie_Wave.v: get_cycle_vector_from_waveform (all modes; peaks / troughs outputs proved valid cycle vectors), get_chain_stat, '
+             'basis_project, mean_vector'),
+    'Cyciter': ('props/Prop_Tie_Cyciter.v: _slice_len, map_cycle_to_samples_augmented, map_subset_to_sample_augmented, get_subset_stat_from_samples, '
+                'Cycles.get_inds_of_cycle / iterate / __iter__ / compute_position_in_chain, IterateCycles.niters / __iter__, get_cycle_inds (generators '
+                'with yield are outside the translated language)'),
+}
+for _pid, _names in {'C05': ['Parab'], 'C06': ['Parab'], 'C18': ['Parab'], 'C12': ['Wave'], 'C15': ['Wave', 'Cyciter'], 'C19': ['Wave'],
+                     'C16': ['Cyciter'], 'C14': ['Cyciter']}.items():
+    CLAIMED[_pid]['technique'] += ' + further TRANSLATION TIES re-checked on every run: ' + '; '.join(_T5[n] for n in _names)
+
 _PENDING = 'check under construction in this session (model/theorem/correspondence not all in place yet); not claimed until they are'
 NOT_CLAIMED = {('C%02d' % i): _PENDING for i in range(1, 21)}
 for _p in CLAIMED:
